@@ -15,11 +15,17 @@ use std::mem::MaybeUninit;
 use std::num::NonZeroU32;
 use std::ptr;
 use std::ptr::NonNull;
+#[cfg(not(all(isographlabs_isograph_verif, isographlabs_isograph_verif_shuttle)))]
 use std::sync::atomic::AtomicPtr;
+#[cfg(not(all(isographlabs_isograph_verif, isographlabs_isograph_verif_shuttle)))]
 use std::sync::atomic::AtomicU32;
 use std::sync::atomic::Ordering;
 
 use parking_lot::Mutex;
+#[cfg(all(isographlabs_isograph_verif, isographlabs_isograph_verif_shuttle))]
+use shuttle::sync::atomic::AtomicPtr;
+#[cfg(all(isographlabs_isograph_verif, isographlabs_isograph_verif_shuttle))]
+use shuttle::sync::atomic::AtomicU32;
 
 const MIN_SHIFT: u32 = 7;
 const U32_BITS: usize = 32;
